@@ -341,3 +341,26 @@ fn convert_step_result(_ctx: &mut TsRunContext, result: StepResult) -> TsRunStep
         }
     }
 }
+
+// ============================================================================
+// Verification hooks (cfg tsrun_verif only)
+// ============================================================================
+
+/// Verification hook (H6): force a garbage collection, so that C API call histories can
+/// place collections between any two calls.
+#[cfg(tsrun_verif)]
+#[unsafe(no_mangle)]
+pub extern "C" fn tsrun_verif_collect(ctx: *mut TsRunContext) {
+    if let Some(ctx) = unsafe { ctx.as_mut() } {
+        ctx.interp.collect();
+    }
+}
+
+/// Verification hook (H6): set the collection threshold of a context.
+#[cfg(tsrun_verif)]
+#[unsafe(no_mangle)]
+pub extern "C" fn tsrun_verif_set_gc_threshold(ctx: *mut TsRunContext, threshold: usize) {
+    if let Some(ctx) = unsafe { ctx.as_mut() } {
+        ctx.interp.set_gc_threshold(threshold);
+    }
+}
